@@ -6,31 +6,10 @@ and the composed parser model with capture simulates the one without, GIVEN that
 import CalmVerif.Model.Parser
 import CalmVerif.Proofs.CommentsLexer
 import CalmVerif.Proofs.CommentsLR
+import CalmVerif.Proofs.CommentsErase
 
 namespace CalmVerif.Proofs.Comments
 open CalmVerif CalmVerif.Model CalmVerif.Model.LR CalmVerif.Model.Lexer CalmVerif.Model.Parser
-
-/-! ### erasing comments from trees and semantic values -/
-
-mutual
-  /-- remove every `@comments` attribute (`Node.comments`) from a tree -/
-  def eraseV : Val → Val
-    | .list xs => .list (eraseVs xs)
-    | .node k as => .node k (eraseAs as)
-    | v => v
-  def eraseVs : List Val → List Val
-    | [] => []
-    | v :: vs => eraseV v :: eraseVs vs
-  def eraseAs : List (String × Val) → List (String × Val)
-    | [] => []
-    | (a, v) :: rest => if a == "@comments" then eraseAs rest else (a, eraseV v) :: eraseAs rest
-end
-
-def eraseATok (t : Actions.Tok) : Actions.Tok := { t with hidden := [] }
-
-/-- a semantic value without comments: the tree erased, the token (if it is one) without `hidden_tokens` -/
-def erasePV (pv : Actions.PVal) : Actions.PVal :=
-  { pv with v := eraseV pv.v, tok := pv.tok.map eraseATok }
 
 /-- the outcome of a parse with the comments erased from the accepted tree -/
 def eraseOutcome : Outcome Actions.PVal PErr → Outcome Actions.PVal PErr
